@@ -18,6 +18,7 @@
 import XotModel.Lemmas.FatomAll
 import XotModel.Lemmas.Fcreation
 import XotModel.Lemmas.FpxDedup
+import XotModel.Lemmas.ArenaExamples
 
 namespace XotModel.Props
 open XotModel
@@ -514,6 +515,71 @@ example : (C06_sample.appendText 4 ['q']).2 = .err .invalidOperation ∧
     (C06_sample.setAttribute 4 9 []).2 = .panic ∧ (C06_sample.setAttribute 1 9 []).2 = .ok ∧
     (C06_sample.attributeSetValue 3 ['w']).2 = .ok ∧ (C06_sample.attributeSetValue 4 ['w']).2 = .err .invalidOperation ∧
     (C06_sample.appendText 1 ['q']).2 = .ok := by decide
+
+/-! =====================================================================================
+  ### The arena under the forest: indextree 4.7.2, pointer level (`Model/Arena*.lean`)
+  ===================================================================================== -/
+
+/-- A refused `checked_*` call leaves the arena LITERALLY unchanged (every slot, stamp, free-list
+    link and both free-list heads) — for every arena, well-formed or not, and every pair of ids,
+    live, removed, stale or out of range: all four functions decide before their first write. -/
+theorem C06_arena_refusal_unchanged (a a' : Arena) (x y : Arena.NodeId) (e : Arena.NodeError) :
+    (Arena.checkedAppend a x y = .done a' (.error e) → a' = a) ∧
+    (Arena.checkedPrepend a x y = .done a' (.error e) → a' = a) ∧
+    (Arena.checkedInsertAfter a x y = .done a' (.error e) → a' = a) ∧
+    (Arena.checkedInsertBefore a x y = .done a' (.error e) → a' = a) :=
+  ⟨Arena.checkedAppend_refused a x y a' e, Arena.checkedPrepend_refused a x y a' e,
+   Arena.checkedInsertAfter_refused a x y a' e, Arena.checkedInsertBefore_refused a x y a' e⟩
+
+/-- With live arguments on a well-formed arena `checked_append` always ends without panic. -/
+theorem C06_arena_append_no_panic (a : Arena) (w : Arena.Wf a) (p x : Arena.NodeId) (hp : Arena.LiveId a p)
+    (hx : Arena.LiveId a x) : ∃ a' res, Arena.checkedAppend a p x = .done a' res := by
+  obtain ⟨g, r⟩ := w
+  rw [hp.eq, hx.eq]
+  by_cases hpx : p.index0 = x.index0
+  · rw [hpx, Arena.checkedAppend_self]; exact ⟨_, _, rfl⟩
+  · by_cases hanc : Arena.Reach g.par p.index0 x.index0
+    · rw [r.checkedAppend_ancestor _ _ hp.2.1 hx.2.1 hpx hanc]; exact ⟨_, _, rfl⟩
+    · obtain ⟨a2, h2, _, _⟩ := r.checkedAppend_ok _ _ hp.2.1 hx.2.1 hpx hanc
+      exact ⟨_, _, h2⟩
+
+/-- `checked_prepend` with live arguments panics in exactly one situation, before any write: the
+    new child already is the first child of the parent. -/
+theorem C06_arena_prepend_panic_iff (a : Arena) (g : Arena.Shape) (r : Arena.Rep a g) (p i : Nat)
+    (hp : Arena.Live a p) (hi : Arena.Live a i) :
+    ((g.kids p).head? = some i → Arena.checkedPrepend a (a.idAt p) (a.idAt i) = .panic a) ∧
+    ((g.kids p).head? ≠ some i → ∃ a' res, Arena.checkedPrepend a (a.idAt p) (a.idAt i) = .done a' res) := by
+  constructor
+  · intro hf
+    have hmem : i ∈ g.kids p := List.mem_of_mem_head? hf
+    have hpar := (r.kidsLive p i hmem).2.2
+    have hne : p ≠ i := r.par_ne hpar
+    exact r.checkedPrepend_first_panics p i hp hi hne (fun h => r.acyclic i p hpar h) hf
+  · intro hf
+    by_cases hpi : p = i
+    · rw [hpi, Arena.checkedPrepend_self]; exact ⟨_, _, rfl⟩
+    · by_cases hanc : Arena.Reach g.par p i
+      · rw [r.checkedPrepend_ancestor p i hp hi hpi hanc]; exact ⟨_, _, rfl⟩
+      · obtain ⟨a2, h2, _, _⟩ := r.checkedPrepend_ok p i hp hi hpi hanc hf
+        exact ⟨_, _, h2⟩
+
+/-- Non-vacuity: refusals of each kind on closed arenas (self, ancestor, removed id), the
+    documented panic, an accepted call — and what is NOT refused: the stale id `2:0` (its slot has
+    been reused as `2:1`) passes the `Removed` check, which looks at the slot only; the call moves the
+    new occupant and stores the stale id in the neighbour's pointer (the arena is no longer
+    well-formed). -/
+example : Arena.checkedAppend Arena.sampleB ⟨4, 0⟩ ⟨1, 0⟩ = .done Arena.sampleB (.error .appendAncestor) ∧
+    Arena.checkedPrepend Arena.sampleB ⟨4, 0⟩ ⟨2, 0⟩ = .done Arena.sampleB (.error .prependAncestor) ∧
+    Arena.checkedInsertAfter Arena.sampleB ⟨3, 0⟩ ⟨3, 0⟩ = .done Arena.sampleB (.error .insertAfterSelf) ∧
+    (match Arena.checkedInsertBefore Arena.sampleC ⟨3, 0⟩ ⟨2, 0⟩ with
+     | .done a' (.ok ()) => !a'.wf && (a'.get ⟨3, 0⟩).map (·.prev) == some (some ⟨2, 0⟩)
+     | _ => false) = true ∧
+    Arena.checkedAppend (Arena.sampleB.after (Arena.remove · ⟨3, 0⟩)) ⟨1, 0⟩ ⟨3, 0⟩ =
+      .done (Arena.sampleB.after (Arena.remove · ⟨3, 0⟩)) (.error .removed) ∧
+    Arena.checkedPrepend Arena.sampleB ⟨1, 0⟩ ⟨2, 0⟩ = .panic Arena.sampleB ∧
+    (match Arena.checkedPrepend Arena.sampleB ⟨1, 0⟩ ⟨3, 0⟩ with
+     | .done a' (.ok ()) => a'.wf && Arena.children a' ⟨1, 0⟩ 9 == .done a' [⟨3, 0⟩, ⟨2, 0⟩]
+     | _ => false) = true := by decide
 
 end XotModel.Props
 
